@@ -48,7 +48,7 @@ def run_case(case):
     out = J.Outcome()
     spec = case["spec"]
     m = M.RefEnum(spec)
-    rnd = random.Random(case["seed"])
+    rnd = J.case_rng(case)
     strings = C.near_miss_strings(m, rnd)
     names = list(dict.fromkeys(m.names))
     if len(names) > 48:
